@@ -31,7 +31,16 @@ import (
 )
 
 // C10 replay: behaviours of Spool.tla on the real queue.
-// Input: {"id":N,"msg":{hdr,body,sender,utf8,reqtls,tlsov,omap,auth},"hist":[{"a":"Accept"},{"a":"Attempt","d":[..]},{"a":"Restart"},...,{"a":"End"}]}
+// Input: {"id":N,"msg":{hdr,body,sender,utf8,reqtls,tlsov,omap,auth},"hist":[{"a":"Accept"},{"a":"Crash"}?,{"a":"Attempt","d":[..]},{"a":"Restart"},...,{"a":"End"}]}
+//
+// The source's body buffer is only valid until the transaction is over (queueDelivery.Body says so):
+// as soon as Commit has returned the harness overwrites the memory buffer / overwrites and removes the
+// file buffer it handed to Body, and only then lets the first attempt's Start go on (the first
+// incarnation's target is gated), so the order does not depend on goroutine scheduling.
+// "Crash" (right after Accept): while the first attempt is still held at the gate the spool directory
+// is copied (= what an abrupt stop leaves), the first incarnation is abandoned (its attempt fails
+// without reaching the recording target) and a new queue is started on the copy: the first hand-over
+// then comes from the disk.
 
 type MsgShape struct {
 	Hdr    string `json:"hdr"`
@@ -52,7 +61,13 @@ type PStep struct {
 
 type PBehaviour struct {
 	// CaseVar: r1/r2 differ only by the letter case of the local part (harness-only dimension)
-	CaseVar bool     `json:"caseVar"`
+	CaseVar bool `json:"caseVar"`
+	// RcptAlpha (harness-only): "" | "idn" (recipients in an internationalized domain) | "uni" (non-ASCII
+	// local parts; only on SMTPUTF8 messages)
+	RcptAlpha string `json:"rcptAlpha"`
+	// OrigFrom (harness-only): the message reached the queue with a rewritten sender, i.e. the
+	// metadata's OriginalFrom differs from the MAIL FROM the queue is given (and has to hand on)
+	OrigFrom bool     `json:"origFrom"`
 	ID      int      `json:"id"`
 	Msg     MsgShape `json:"msg"`
 	Hist    []PStep  `json:"hist"`
@@ -61,10 +76,32 @@ type PBehaviour struct {
 const taintUser = "verif-taint-user-7f3a9c"
 const taintPass = "verif-taint-password-51e8d2"
 
-func hdrBytes(shape string, rng *rand.Rand) []byte {
+func hdrBytes(shape string, m MsgShape, rng *rand.Rand) []byte {
 	tag := fmt.Sprintf("%08x", rng.Uint32())
 	var b bytes.Buffer
 	switch shape {
+	case "envlike":
+		// fields that spell envelope information differently from the envelope. The SMTP endpoint sets
+		// the TLS-Required override iff the top-most TLS-Required field says "No"; the header agrees with
+		// the accepted flag under that rule, and has a second field that says the opposite.
+		top, low := "no-thanks", "No"
+		if m.Tlsov {
+			top, low = "No", "no-thanks"
+		}
+		b.WriteString("Received: from client.example (client.example [192.0.2.1]) by mx.example.org with ESMTPS\r\n" +
+			"\tfor <someone-else@example.net>; Thu, 1 Oct 2026 10:00:00 +0000\r\n" +
+			"TLS-Required: " + top + "\r\n" +
+			"Return-Path: <bounces+" + tag + "@lists.example.net>\r\n" +
+			"Delivered-To: elsewhere@example.net\r\n" +
+			"X-Original-To: elsewhere@example.net\r\n" +
+			"Sender: <header-sender@example.net>\r\n" +
+			"From: Header From <header-from@example.net>\r\n" +
+			"To: undisclosed-recipients:;\r\n" +
+			"Cc: third@example.net, r1@example.net\r\n" +
+			"Bcc: hidden@example.net\r\n" +
+			"tls-required: " + low + "\r\n" +
+			"Require-TLS: yes\r\nX-SMTPUTF8: yes\r\n" +
+			"Subject: envelope-like fields " + tag + "\r\n")
 	case "plain":
 		b.WriteString("Subject: hello " + tag + "\r\nFrom: <a@b.example>\r\nTo: <c@d.example>\r\n")
 	case "folded":
@@ -318,6 +355,49 @@ func (d *pDelivery) Abort(ctx context.Context) error {
 	return nil
 }
 
+// gatedTarget is the target of the first incarnation: its first Start waits until the harness has
+// invalidated the source's buffer; once the incarnation is abandoned (Crash) every Start fails
+// without reaching the recording target.
+type gatedTarget struct {
+	inner *pTarget
+	gate  chan struct{}
+	mu    sync.Mutex
+	dead  bool
+}
+
+func (g *gatedTarget) Start(ctx context.Context, m *module.MsgMetadata, from string) (module.Delivery, error) {
+	<-g.gate
+	g.mu.Lock()
+	dead := g.dead
+	g.mu.Unlock()
+	if dead {
+		return nil, &tempErr{}
+	}
+	return g.inner.Start(ctx, m, from)
+}
+
+func (g *gatedTarget) abandon() {
+	g.mu.Lock()
+	g.dead = true
+	g.mu.Unlock()
+}
+
+func copySpool(t *testing.T, from, to string) {
+	ents, err := os.ReadDir(from)
+	if err != nil {
+		t.Fatal(err)
+	}
+	for _, e := range ents {
+		data, err := os.ReadFile(filepath.Join(from, e.Name()))
+		if err != nil {
+			t.Fatal(err)
+		}
+		if err := os.WriteFile(filepath.Join(to, e.Name()), data, 0o600); err != nil {
+			t.Fatal(err)
+		}
+	}
+}
+
 func scanTaint(dir string) (bool, []string) {
 	var where []string
 	filepath.Walk(dir, func(p string, fi os.FileInfo, err error) error {
@@ -338,7 +418,8 @@ func scanTaint(dir string) (bool, []string) {
 
 func runPreserve(t *testing.T, b PBehaviour, w *bufio.Writer, seed int64) {
 	caseVar = b.CaseVar
-	defer func() { caseVar = false }()
+	useIdn, uniLocal = !b.CaseVar && b.RcptAlpha == "idn", !b.CaseVar && b.RcptAlpha == "uni" && b.Msg.Utf8
+	defer func() { caseVar, useIdn, uniLocal = false, false, false }()
 	dir, err := os.MkdirTemp(workDir(), "spool")
 	if err != nil {
 		t.Fatal(err)
@@ -350,7 +431,7 @@ func runPreserve(t *testing.T, b PBehaviour, w *bufio.Writer, seed int64) {
 	}
 	defer os.RemoveAll(bufDir)
 	rng := rand.New(rand.NewSource(seed*7919 + int64(b.ID)))
-	rawHdr := hdrBytes(b.Msg.Hdr, rng)
+	rawHdr := hdrBytes(b.Msg.Hdr, b.Msg, rng)
 	hdr, err := textproto.ReadHeader(bufio.NewReader(bytes.NewReader(rawHdr)))
 	if err != nil {
 		t.Fatalf("harness header does not parse: %v", err)
@@ -371,9 +452,11 @@ func runPreserve(t *testing.T, b PBehaviour, w *bufio.Writer, seed int64) {
 		// a bounce pipeline is configured (reports are generated for permanently failed recipients);
 		// what the reports look like is C18's business
 		bnc := &scripted.Bounce{Tr: vtrace.New(nil, b.ID), ID: idOf}
+		first := &gatedTarget{inner: tgt, gate: make(chan struct{})}
+		var curTarget module.DeliveryTarget = first
 		mk := func() *queue.Queue {
 			q, err := queue.VerifNewQueue(queue.VerifConfig{
-				Location: dir, Target: tgt, Bounce: bnc, MaxTries: 12, MaxParallelism: 1,
+				Location: dir, Target: curTarget, Bounce: bnc, MaxTries: 12, MaxParallelism: 1,
 				InitialRetryTime: retryDelay, RetryTimeScale: 1, PostInitDelay: 0,
 				Hostname: "mx.example.org", AutogenMsgDomain: "example.org",
 				Log: log.Logger{Out: log.NopOutput{}},
@@ -392,6 +475,9 @@ func runPreserve(t *testing.T, b PBehaviour, w *bufio.Writer, seed int64) {
 		ctx := context.Background()
 		meta := &module.MsgMetadata{ID: "msg" + itoa(b.ID), OriginalFrom: from,
 			SMTPOpts: smtp.MailOptions{UTF8: b.Msg.Utf8, RequireTLS: b.Msg.Reqtls}}
+		if b.OrigFrom && from != "" {
+			meta.OriginalFrom = "original-sender@example.net"
+		}
 		if b.Msg.Omap {
 			meta.OriginalRcpts = map[string]string{addr("r1"): "orig-r1@example.org", addr("r2"): "\"o r\"@example.org"}
 			tgt.omap = map[string]string{addr("r1"): "orig-r1@example.org", addr("r2"): "\"o r\"@example.org"}
@@ -416,7 +502,8 @@ func runPreserve(t *testing.T, b PBehaviour, w *bufio.Writer, seed int64) {
 		if b.Msg.Tlsov {
 			meta.TLSRequireOverride = true
 		}
-		var buf buffer.Buffer = buffer.MemoryBuffer{Slice: body}
+		srcSlice := append([]byte{}, body...)
+		var buf buffer.Buffer = buffer.MemoryBuffer{Slice: srcSlice}
 		if b.Msg.Body == "large" {
 			fb, err := buffer.BufferInFile(bytes.NewReader(body), bufDir)
 			if err != nil {
@@ -443,17 +530,44 @@ func runPreserve(t *testing.T, b PBehaviour, w *bufio.Writer, seed int64) {
 		if err := d.Commit(ctx); err != nil {
 			t.Fatal(err)
 		}
+		// the transaction is over: the source reuses its memory buffer, the endpoint removes its file buffer
+		for i := range srcSlice {
+			srcSlice[i] = 'X'
+		}
 		if fb, ok := buf.(buffer.FileBuffer); ok {
-			fb.Remove() // the endpoint removes its buffer once the transaction is over
+			os.WriteFile(fb.Path, bytes.Repeat([]byte("gone "), len(body)/5), 0o600)
+			fb.Remove()
+		}
+		if len(b.Hist) > 1 && b.Hist[1].A == "Crash" {
+			// abrupt stop before the first attempt got anywhere: the restarted queue works from the disk
+			snap, err := os.MkdirTemp(workDir(), "snap")
+			if err != nil {
+				t.Fatal(err)
+			}
+			defer os.RemoveAll(snap)
+			copySpool(t, dir, snap)
+			first.abandon()
+			close(first.gate)
+			synctest.Wait()
+			q.Close()
+			dir = snap
+			curTarget = tgt
+			tr.Emit("Restart", vtrace.Ev{"crash": true})
+			q = mk()
+			synctest.Wait()
+			time.Sleep(retryDelay + retryDelay/2) // the reloaded entry becomes due one retry delay after its acceptance
+		} else {
+			close(first.gate)
+			curTarget = tgt
 		}
 		synctest.Wait() // the first attempt runs right away
 		scan()
-		first := true
+		first1 := true
 		for _, s := range b.Hist {
 			switch s.A {
 			case "Attempt":
-				if first {
-					first = false // already happened after Commit
+				if first1 {
+					first1 = false // already happened after Commit
 					continue
 				}
 				if !hasMeta(dir) {
@@ -467,7 +581,7 @@ func runPreserve(t *testing.T, b PBehaviour, w *bufio.Writer, seed int64) {
 					continue // nothing is queued any more
 				}
 				q.Close()
-				tr.Emit("Restart", nil)
+				tr.Emit("Restart", vtrace.Ev{"crash": false})
 				q = mk()
 				synctest.Wait()
 				scan()
